@@ -935,6 +935,73 @@ func ruleRelaySync(r *Run) {
 			}
 		}
 	}
+	// the queue handed to another function: allowed only for a helper that merely drains it
+	// (len / receive on that parameter), which then counts as a receive by the caller
+	for _, fn := range funcs {
+		ast.Inspect(fn.Body, func(n ast.Node) bool {
+			call, ok := n.(*ast.CallExpr)
+			if !ok {
+				return true
+			}
+			for k, a := range call.Args {
+				se, ok := ast.Unparen(a).(*ast.SelectorExpr)
+				if !ok {
+					continue
+				}
+				if sel, ok := fn.Info().Selections[se]; !ok || sel.Obj() != sendChan {
+					continue
+				}
+				if b, isB := calleeObj(fn.Info(), call).(*types.Builtin); isB && (b.Name() == "len" || b.Name() == "cap") {
+					continue
+				}
+				f, _ := calleeObj(fn.Info(), call).(*types.Func)
+				def := r.P.Funcs[f]
+				drainOnly := false
+				if f != nil && def != nil && r.P.isGlue(f) && def.Decl != nil && def.Decl.Type.Params != nil {
+					var pobj types.Object
+					idx := 0
+					for _, fld := range def.Decl.Type.Params.List {
+						for _, nm := range fld.Names {
+							if idx == k {
+								pobj = def.Info().Defs[nm]
+							}
+							idx++
+						}
+					}
+					if pobj != nil {
+						drainOnly = true
+						ast.Inspect(def.Body, func(m ast.Node) bool {
+							switch v := m.(type) {
+							case *ast.SendStmt:
+								if id, ok := ast.Unparen(v.Chan).(*ast.Ident); ok && def.Info().Uses[id] == pobj {
+									drainOnly = false
+								}
+							case *ast.CallExpr:
+								if b, isB := calleeObj(def.Info(), v).(*types.Builtin); isB && (b.Name() == "len" || b.Name() == "cap") {
+									return false
+								}
+								for _, a2 := range v.Args {
+									if id, ok := ast.Unparen(a2).(*ast.Ident); ok && def.Info().Uses[id] == pobj {
+										drainOnly = false
+									}
+								}
+							case *ast.AssignStmt:
+								for _, rh := range v.Rhs {
+									if id, ok := ast.Unparen(rh).(*ast.Ident); ok && def.Info().Uses[id] == pobj {
+										drainOnly = false
+									}
+								}
+							}
+							return true
+						})
+					}
+				}
+				okFn := drainOnly && r.onlyFrom(fn, "websocket.(*handler).startSending")
+				r.Check("C6", fn.root().Name+":queue-handed-out", okFn, a.Pos(), "the connection's send queue is handed to another function only to be drained by the sending loop's own shutdown (callee %s)", objName(calleeObj(fn.Info(), call)))
+			}
+			return true
+		})
+	}
 	nSend, nRecv := 0, 0
 	for _, u := range uses {
 		if u.send {
@@ -950,7 +1017,7 @@ func ruleRelaySync(r *Run) {
 		}
 	}
 	r.Floor("C6", "sends into the send queue", nSend, 2)
-	r.Floor("C6", "receives from the send queue", nRecv, 2)
+	r.Floor("C6", "receives from the send queue", nRecv, 1) // the sending loop's receive (its shutdown drain may live in a helper)
 	// sendMsg: exactly one blocking send of the message handed in; send: encode, then the same
 	for _, q := range []struct {
 		name   string
